@@ -12,7 +12,10 @@ RULE = ("target models: scalar chain, array-valued address, selection inside Vma
         "randomness (proposal noise, momentum, accept uniform swapped for scripted twins in the compat copy's mcmc module): proposal, "
         "log acceptance ratio, accept decision and resulting trace vs an independent JAX/scipy implementation of the MH rule and vs the Lean "
         "model (accept rule, leapfrog); mh's proposal = seeded regenerate under the same key; unselected/observed untouched; rejection returns "
-        "the input bit-for-bit; non-trivial = every case (distinct by model/selection/randomness)")
+        "the input bit-for-bit; mala/hmc additionally vs the Lean kernels model (Mcmc.malaLogAlpha / Mcmc.hmcLogAlpha run by the driver on the exact "
+        "rational quadratic form of the independent log density, same state / noise / momentum / step size / step count): proposal, log alpha "
+        "(vs the oracle numerically, vs the implementation by accept decisions at scripted thresholds bracketing exp(log alpha) by +-2%); "
+        "non-trivial = every case (distinct by model/selection/randomness)")
 
 
 class Scripted:
@@ -166,6 +169,67 @@ def same_trace(a, b):
     return len(la) == len(lb) and all(np.array_equal(norm(x), norm(y)) for x, y in zip(la, lb))
 
 
+BRACKET = 0.02   # thresholds exp(log alpha -+ BRACKET): the same +-2% as the mh branch
+
+
+def quad_target(lp_sel, order, x0):
+    """the independent log density over the selected leaves as an exact quadratic form k + b.x - x^T A x / 2 over the flattened coordinates
+    (leaf order = `order`); every C09 target is linear-Gaussian in its continuous latents, so this IS the target.  Infra if it is not quadratic."""
+    import jax
+    import jax.numpy as jnp
+    sizes = [int(np.prod(np.shape(x0[p])) or 1) for p in order]
+    shapes = [tuple(np.shape(x0[p])) for p in order]
+
+    def unflatten(v):
+        out, i = {}, 0
+        for p, n, shp in zip(order, sizes, shapes):
+            out[p] = jnp.reshape(v[i:i + n], shp)
+            i += n
+        return out
+
+    def flatten(xs):
+        return np.concatenate([np.ravel(np.asarray(xs[p], dtype=np.float64)) for p in order])
+
+    f = lambda v: lp_sel(unflatten(v))
+    gf = jax.grad(f)
+    n = sum(sizes)
+    z = jnp.zeros(n, dtype=jnp.float32)
+    k = float(f(z))
+    b = np.asarray(gf(z), dtype=np.float64)
+    # the gradient of a quadratic is affine: column j of the Hessian is grad(e_j) - grad(0) (eager evaluations, nothing is compiled)
+    h = np.stack([np.asarray(gf(z.at[j].set(1.0)), dtype=np.float64) - b for j in range(n)], axis=1)
+    A = -(h + h.T) / 2.0
+
+    def q(v):
+        v = np.asarray(v, dtype=np.float64)
+        return k + b @ v - v @ A @ v / 2.0
+    return k, A, b, sizes, flatten, unflatten, f, q
+
+
+def kernels_model(kernel, eps, nsteps, k, A, b, sizes, xflat, zflat):
+    """run Mcmc.malaStep / Mcmc.hmcStep (Lean, exact rationals) on the quadratic target; the Gaussian normaliser is sent as the number the
+    code uses although the model's log alpha provably does not depend on it"""
+    from fractions import Fraction as Fr
+    fq = lambda v: Fr(float(v)).limit_denominator(10 ** 9)
+    ex = lambda v: Fr(float(v))          # float32 values are dyadic: sent exactly
+    Aq = [[fq(a) for a in row] for row in A]
+    common_args = [list(sizes), fq(k), Aq, [fq(v) for v in b], [ex(v) for v in xflat], [ex(v) for v in zflat]]
+    if kernel == "mala":
+        line = sexp.dumps(["mala-alpha", fq(math.log(eps * math.sqrt(2 * math.pi))), fq(eps)] + common_args)
+    else:
+        line = sexp.dumps(["hmc-alpha", fq(math.log(math.sqrt(2 * math.pi))), fq(eps), int(nsteps)] + common_args)
+    r = sexp.loads(common.driver_run([line])[0])
+    if r[0] != "ok":
+        raise common.Infra(f"driver rejected {line[:200]}: {r}")
+    from fractions import Fraction as F
+    if kernel == "mala":
+        return {"x1": np.array([float(F(t)) for t in r[1]]), "alpha": float(F(r[2])), "w": float(F(r[3])), "fwd": float(F(r[4])), "bwd": float(F(r[5])),
+                "g0": np.array([float(F(t)) for t in r[6]]), "g1": np.array([float(F(t)) for t in r[7]]), "rev": r[8] == "T"}
+    return {"x1": np.array([float(F(t)) for t in r[1]]), "p1": np.array([float(F(t)) for t in r[2]]), "alpha": float(F(r[3])),
+            "lp0": float(F(r[4])), "lp1": float(F(r[5])), "rev": r[6] == "T"}
+
+
+
 def check_kernel(G, ctx, mname, spec, sel_e, kernel, key_int, rng, eps=0.3, nsteps=2):
     import jax
     import jax.numpy as jnp
@@ -275,6 +339,51 @@ def check_kernel(G, ctx, mname, spec, sel_e, kernel, key_int, rng, eps=0.3, nste
             # coherence of the result
             if abs(float(out.get_score()) + float(logp(oc))) > 2e-3 * (1 + abs(float(out.get_score()))):
                 ctx.property_failure(None, f"{kernel}: resulting trace score {float(out.get_score())} != -log joint {-float(logp(oc))}", case)
+            # ---- the Lean kernels model (Mcmc.malaStep / Mcmc.hmcStep, exact rationals) on the same state, noise / momentum, step size, step count
+            name = "Mcmc.malaLogAlpha vs mala" if kernel == "mala" else "Mcmc.hmcLogAlpha vs hmc"
+            kq, A, b, sizes, flatten, unflatten, f32, q = quad_target(lp_sel, order, x0)
+            xf, zf, x1f = flatten(x0), flatten(noise), flatten(x1)
+            for v in (xf, x1f):
+                if abs(float(f32(jnp.asarray(v, dtype=jnp.float32))) - q(v)) > 2e-3 * (1 + abs(q(v))):
+                    raise common.Infra(f"C09 target {mname}/{sel_e} is not quadratic in the selected choices: the kernels model layer has no exact target for it "
+                                       "(give the model family a Gaussian form or extend the driver)")
+            m = kernels_model(kernel, eps, nsteps, kq, A, b, sizes, xf, zf)
+            mcase = {**case, "model_log_alpha": m["alpha"]}
+            if not m["rev"]:
+                ctx.correspondence_break(name, "driver: the reversed move does not have the negated log alpha (C09_mala_reverse_symmetric / C09_hmc_reverse_symmetric instance)", mcase)
+            # model vs the independent reference: proposal and log alpha
+            if not np.allclose(m["x1"], x1f, rtol=2e-3, atol=2e-3):
+                ctx.correspondence_break(name, f"model proposal {m['x1'].tolist()} != reference proposal {x1f.tolist()}", mcase)
+            if abs(m["alpha"] - log_alpha) > 2e-3 * (1 + abs(log_alpha)):
+                ctx.correspondence_break(name, f"model log alpha {m['alpha']} != reference MH log ratio {log_alpha}", mcase)
+            # model vs implementation: accept decisions at thresholds bracketing exp(model log alpha), and the accepted state
+            runs = [(math.exp(min(m["alpha"], 0.0) - BRACKET), True)] if m["alpha"] > -80.0 else []
+            if -80.0 < m["alpha"] < -BRACKET:
+                runs.append((math.exp(m["alpha"] + BRACKET), False))
+            for uu, want_acc in runs:
+                su.fixed = uu
+                sn.rng = __import__("random").Random(key_int * 7 + 1)
+                o2 = k(tr) if mname not in ("mixture-indicator",) else G.seed(k)(key, tr)
+                oc2 = o2.get_choices()
+                got2 = {p: np.asarray(tree_get(oc2, p)) for p in spaths}
+                moved2 = any(not np.array_equal(got2[p], np.asarray(x0[p])) for p in spaths)
+                bcase = {**mcase, "u": uu}
+                ctx.count(f"bracket:{kernel}:{'accept' if want_acc else 'reject'}")
+                if moved2 != want_acc:
+                    ctx.correspondence_break(name, f"model log alpha {m['alpha']:.5f}: at accept threshold u={uu:.6g} (log u {math.log(uu):.5f}) the kernel "
+                                             f"{'moved' if moved2 else 'did not move'}", bcase)
+                    if (math.log(uu) < min(0.0, log_alpha)) == want_acc and abs(math.log(uu) - min(0.0, log_alpha)) > 1e-3:
+                        ctx.property_failure(None, f"{kernel}: MH rule says {'accept' if want_acc else 'reject'} (log alpha {log_alpha:.4f}, u={uu:.6g}) but the kernel "
+                                             f"{'moved' if moved2 else 'did not move'}", bcase)
+                elif moved2 and not np.allclose(flatten(got2), m["x1"], rtol=2e-3, atol=2e-3):
+                    ctx.correspondence_break(name, f"accepted state {flatten(got2).tolist()} != model proposal {m['x1'].tolist()}", bcase)
+                    if any(not np.allclose(got2[p], np.asarray(x1[p]), rtol=2e-3, atol=2e-3) for p in spaths):
+                        ctx.property_failure(None, f"{kernel}: the accepted state is not the {('Langevin' if kernel == 'mala' else 'leapfrog')} proposal for the noise actually drawn", bcase)
+                if not moved2 and not same_trace(o2, tr):
+                    ctx.property_failure(None, f"{kernel}: a rejected move did not return the input trace unchanged", bcase)
+            ctx.count(f"kernels-model:{kernel}")
+    except common.Infra:
+        raise
     except Exception as ex:
         impl.reset_handlers()
         ctx.property_failure(None, f"{kernel} raised {type(ex).__name__}: {str(ex)[:200]}", case)
